@@ -19,7 +19,7 @@ os.environ.setdefault("NUMBA_DISABLE_JIT", "1")
 
 def pydrex_modules():
     import pydrex  # noqa: F401
-    from pydrex import core, diagnostics, geometry, minerals, stats, tensors, utils, velocity
+    from pydrex import core, diagnostics, geometry, minerals, pathlines, stats, tensors, utils, velocity
 
     try:
         logging.getLogger("pydrex").setLevel(logging.CRITICAL + 10)
@@ -32,7 +32,7 @@ def pydrex_modules():
         pass
     return dict(
         core=core, tensors=tensors, utils=utils, minerals=minerals, stats=stats, geometry=geometry,
-        diagnostics=diagnostics, velocity=velocity,
+        diagnostics=diagnostics, velocity=velocity, pathlines=pathlines,
     )
 
 
